@@ -7,6 +7,7 @@ import (
 	"sort"
 	"strings"
 	"sync"
+	"time"
 
 	"verifharness/internal/core"
 	"verifharness/internal/fixture"
@@ -17,7 +18,7 @@ import (
 func init() {
 	core.Register(&core.Simple{
 		Id: "C12", Lvl: "exploration", Quick: 300, Thorough: 10000, PerBatch: 75, Width: 16, Timeout: 1500,
-		RuleText: "each case is a history of 25-50 steps over 2-9 clients with random read/send/open-chat/any-name privileges: connect+login (both login flows), invite-new, invite-to, join, leave, decline, set-subject, public and private send (plain and emote, messages 0..9000 arbitrary bytes), disconnect; a reference chat model computes per step the required deliveries (chat lines, subject changes, join and leave notices) and the permitted ones (invitation to the invitee, decline line to members); at hook-based quiescence every client's newly received chat transactions (types 106,113,117,118,119) must contain each required delivery exactly once and nothing that is not permitted for it. A race-build stress batch has all members of frozen chats send concurrently with unique message ids. distinct = multiset of step kinds; non-trivial = history has a private send after a leave/decline/disconnect or a public send with mixed read privileges",
+		RuleText: "each case is a history of 25-50 steps over 2-9 clients with random read/send/open-chat/any-name privileges: connect+login (both login flows), invite-new, invite-to, join, leave, decline, set-subject, public and private send (plain and emote, messages 0..9000 arbitrary bytes), disconnect; a reference chat model computes per step the required deliveries (chat lines, subject changes, join and leave notices) and the permitted ones (invitation to the invitee, decline line to members); at hook-based quiescence every client's newly received chat transactions (types 106,113,117,118,119) must contain each required delivery exactly once and nothing that is not permitted for it. A race-build stress batch has all members of frozen chats send concurrently with unique message ids, and a churn batch lets members leave and re-join while others send, then checks that those who finally left are out of the audience. distinct = multiset of step kinds; non-trivial = history has a private send after a leave/decline/disconnect or a public send with mixed read privileges",
 		Case:  runCase,
 		Extra: func(tier string, seed int64) []core.Batch {
 			n := 6
@@ -651,6 +652,119 @@ func runStress(b core.Batch, em *core.Emitter) {
 							res.Verdict, res.Key = core.Violated, "C12/stress/private-count"
 							res.Msg = fmt.Sprintf("client %d (member=%v) received private message priv-%d-%d %d times, want %d", ci, ci < k, i, j, c, want)
 						}
+					}
+				}
+			}
+			em.Emit(res)
+		})
+		// second stress shape: membership churns (members leave and re-join) while the others keep sending; when
+		// the churn is over every client that has left must be out of the audience for good
+		cid := fmt.Sprintf("C12/churn/%d", run)
+		core.SafeCase(em, cid, func() {
+			em.Begin(cid, nil)
+			r := core.NewRand(b.Seed, uint64(run), 0x1212)
+			n := 10 + r.Intn(6)
+			srv, err := fixture.New(fixture.Options{})
+			if err != nil {
+				em.Emit(core.Result{Case: cid, Verdict: core.Inconclusive, Msg: err.Error()})
+				return
+			}
+			defer srv.Close()
+			var cls []*refclient.Client
+			for i := 0; i < n; i++ {
+				cl, err := refclient.LoginAs(srv, fmt.Sprintf("10.12.8.%d:1", i+1), "admin", "", fmt.Sprintf("M%d", i))
+				if err != nil {
+					em.Emit(core.Result{Case: cid, Verdict: core.Inconclusive, Msg: err.Error()})
+					return
+				}
+				cls = append(cls, cl)
+			}
+			ul, _ := cls[0].Call(300)
+			us, _ := refclient.UserList(ul)
+			rep, ok := cls[0].Call(112, rc.F(103, rc.U16(int(us[1].ID))))
+			chat, _ := rep.Get(114)
+			if !ok || len(chat) != 4 {
+				em.Emit(core.Result{Case: cid, Verdict: core.Inconclusive, Msg: "no chat"})
+				return
+			}
+			for i := 1; i < n; i++ {
+				cls[i].Call(115, rc.F(114, chat))
+			}
+			srv.Quiesce(refclient.Watchdog)
+			// clients 0..3 stay and keep sending; in every round the others (re-)join, then all leave at once while
+			// the four keep sending; after each round the leavers must be out of the audience
+			const stay = 4
+			res := core.Result{Case: cid, Class: fmt.Sprintf("churn/n%d", n), Verdict: core.Held, Obs: map[string]int{"churn_runs": 1},
+				Sample: map[string]any{"clients": n, "leavers": n - stay, "rounds": 10}}
+			for round := 0; round < 10 && res.Verdict == core.Held; round++ {
+				for i := stay; i < n; i++ {
+					if round > 0 {
+						cls[i].Call(115, rc.F(114, chat))
+					}
+				}
+				srv.Quiesce(refclient.Watchdog)
+				var wg sync.WaitGroup
+				stop := make(chan struct{})
+				for i := 0; i < stay; i++ {
+					wg.Add(1)
+					go func(i int) {
+						defer wg.Done()
+						for j := 0; ; j++ {
+							select {
+							case <-stop:
+								return
+							default:
+							}
+							cls[i].Send(105, rc.F(114, chat), rc.FS(101, fmt.Sprintf("during-%d-%d-%d", round, i, j)))
+							if j%32 == 31 {
+								time.Sleep(20 * time.Microsecond)
+							}
+						}
+					}(i)
+				}
+				time.Sleep(300 * time.Microsecond)
+				var lw sync.WaitGroup
+				for i := stay; i < n; i++ {
+					lw.Add(1)
+					go func(i int) {
+						defer lw.Done()
+						time.Sleep(time.Duration((i*37+round*11)%200) * time.Microsecond)
+						cls[i].Send(116, rc.F(114, chat))
+						cls[i].Conn.WaitIdle(refclient.Watchdog)
+					}(i)
+				}
+				lw.Wait()
+				time.Sleep(200 * time.Microsecond)
+				close(stop)
+				wg.Wait()
+				if !srv.Quiesce(refclient.Watchdog) {
+					res.Verdict, res.Msg = core.Inconclusive, "no quiescence"
+					break
+				}
+				for _, cl := range cls {
+					cl.Drain()
+				}
+				// after the churn: final lines from members that stayed
+				for i := 0; i < 2; i++ {
+					cls[i].Send(105, rc.F(114, chat), rc.FS(101, fmt.Sprintf("final-%d-%d", round, i)))
+					cls[i].Send(120, rc.F(114, chat), rc.FS(115, fmt.Sprintf("subject-%d-%d", round, i)))
+				}
+				srv.Quiesce(refclient.Watchdog)
+				res.Obs["churn_rounds"]++
+				for ci, cl := range cls {
+					lines := 0
+					for _, t := range cl.Drain() {
+						if t.Type == 106 || t.Type == 119 {
+							lines++
+						}
+					}
+					want := 0
+					if ci < stay {
+						want = 4
+					}
+					if lines != want {
+						res.Verdict, res.Key = core.Violated, "C12/churn/audience-after-churn"
+						res.Msg = fmt.Sprintf("round %d: after %d members left concurrently with chat traffic, client %d (member now: %v) received %d of the 4 final chat lines/subject changes, want %d", round, n-stay, ci, ci < stay, lines, want)
 					}
 				}
 			}
